@@ -1,5 +1,5 @@
 /-
-Helper lemmas for C18 (2): `haplobin`.
+Helper lemmas for C18 (2): `haplobinPrerepair`.
 * the painting loop equals a per-marker function (`binLoop_eq_map`);
 * for sorted boundaries the label of a marker `x` with `hb.head ≤ x ≤ hb.last` is
   `k + #{interior boundaries ≤ x}` (`labelGo_sorted`): total, monotone in `x`, inside `[k, k + nbins)`;
@@ -101,7 +101,7 @@ theorem labelGo_sorted (lo : α) (tl : List α) (k : Nat) (x : α) (cur : Option
       · have h' : ¬ hi ≤ x := fun hh => h (le_trans hlohi hh)
         simp [h, h']
 
-/-- boundaries that `haplobin` may be run with: at least one bin, sorted, bracketing the markers -/
+/-- boundaries that `haplobinPrerepair` may be run with: at least one bin, sorted, bracketing the markers -/
 structure BoundsOK (hb pos : List α) : Prop where
   two : 2 ≤ hb.length
   sorted : hb.Pairwise (· ≤ ·)
@@ -158,18 +158,18 @@ theorem labelsChrom_sorted (hb : List α) (k : Nat) (pos : List α) (hp : pos.Pa
 
 /-! ### the genome-wide label vector -/
 
-/-- labels of all chromosomes as total values (mirror of `haplobinHB`) -/
+/-- labels of all chromosomes as total values (mirror of `haplobinHBPrerepair`) -/
 def labelsAll : List (List α) → List (List α) → Nat → List Nat
   | hb :: hbs, pos :: cs, k => labelsChrom hb k pos ++ labelsAll hbs cs (k + (hb.length - 1))
   | _, _, _ => []
 
-theorem haplobinHB_eq_labels (hbs chroms : List (List α)) (k : Nat)
+theorem haplobinHBPrerepair_eq_labels (hbs chroms : List (List α)) (k : Nat)
     (h : List.Forall₂ BoundsOK hbs chroms) :
-    haplobinHB hbs chroms k = (labelsAll hbs chroms k).map some := by
+    haplobinHBPrerepair hbs chroms k = (labelsAll hbs chroms k).map some := by
   induction h generalizing k with
-  | nil => simp [haplobinHB, labelsAll]
+  | nil => simp [haplobinHBPrerepair, labelsAll]
   | cons hbc _ ih =>
-    simp only [haplobinHB, labelsAll, List.map_append]
+    simp only [haplobinHBPrerepair, labelsAll, List.map_append]
     rw [binChrom_eq_labels _ _ _ hbc, ih]
 
 theorem allSome_map_some {γ : Type} (l : List γ) : allSome (l.map some) = some l := by
